@@ -146,6 +146,7 @@ package crdt
 //@   modifies c.Mast, c.MergeSources
 //@   ensures mode-mismatch: imp(c.MergeMode != other.MergeMode, result != nil)
 //@   ensures mast-kept-nonnil: c.Mast != nil
+//@   ensures mast-fresh: imp(result == nil, fresh(c.Mast))
 //@   ensures failed-unchanged: imp(result != nil, c.Mast == old(c.Mast) && c.MergeSources == old(c.MergeSources))
 //@   ensures keys: forall a int :: imp(result == nil, has(T(*c.Mast), a) == (old(has(T(*c.Mast), a)) || has(T(*other.Mast), a)))
 //@   ensures only-mine: forall a int :: imp(result == nil && old(has(T(*c.Mast), a)) && !has(T(*other.Mast), a), T(*c.Mast)[a] == old(T(*c.Mast)[a]))
@@ -158,7 +159,7 @@ package crdt
 // Load / NewRoot: a tree handle on a stored (or empty) version.
 //@ func Load
 //@   modifies nothing
-//@   ensures imp(err == nil, result0 != nil && fresh(result0) && result0.Mast != nil && result0.Source == rootName && result0.Created == root.Created && result0.MergeSources == root.MergeSources && result0.MergeMode == root.MergeMode)
+//@   ensures imp(err == nil, result0 != nil && fresh(result0) && result0.Mast != nil && fresh(result0.Mast) && result0.Source == rootName && result0.Created == root.Created && result0.MergeSources == root.MergeSources && result0.MergeMode == root.MergeMode)
 //@   ensures imp(err != nil, result0 == nil)
 
 //@ func NewRoot
